@@ -160,6 +160,15 @@ def _contains_hash_iter(ty):
     return bool(HASH_ITER_RE.search(ty))
 
 
+ADAPTORS = {
+    "iter", "into_iter", "iter_mut", "map", "filter", "filter_map", "cloned", "copied", "enumerate", "zip", "chain",
+    "flat_map", "flatten", "skip", "take", "by_ref", "peekable", "inspect", "values", "keys", "into_keys", "into_values",
+    "step_by", "skip_while", "take_while", "map_while", "fuse", "scan", "dedup", "dedup_by", "unique", "intersection",
+    "union", "difference", "symmetric_difference", "deref", "as_slice", "as_ref", "borrow", "clone", "to_vec", "chunk_by",
+    "combinations", "permutations", "tuple_windows", "rev", "cycle", "values_mut",
+}
+
+
 def natural_loop_blocks(body, header):
     """blocks of the natural loop(s) whose header is `header`"""
     blocks = {header}
@@ -211,6 +220,10 @@ def classify_loop_body(body, flow, effects, loop_blocks, next_bb):
         if k in ("Vec::push", "VecDeque::push_back", "VecDeque::push_front", "String::push_str", "String::push", "Vec::extend", "Vec::insert", "Vec::append", "BinaryHeap::push"):
             bump("ORDER", "%s into %s at %s" % (k, ty, loc_str(site.span)))
             continue
+        if k == "iter::Extend::extend" and getattr(site, "k", None) == "call" and site.args and site.args[0].place is not None and ("HashSet<" in site.args[0].place.ty or "HashMap<" in site.args[0].place.ty or "BTree" in site.args[0].place.ty):
+            continue  # extending an unordered container
+        if k == "assign" and getattr(site, "lhs", None) is not None and site.lhs.has_deref() and _keyed_store_by_item(body, flow, site, next_bb):
+            continue  # `*map.entry(item_key).or_insert(..) = v`: one slot per (distinct) item
         if k == "assign" or k.startswith("IndexMut") or k.startswith("AddAssign") or k.startswith("SubAssign") or k == "Entry::and_modify":
             # assignment: integer accumulate = SAFE, float accumulate = FLOAT, other = ORDER
             vt = None
@@ -245,6 +258,34 @@ def classify_loop_body(body, flow, effects, loop_blocks, next_bb):
                     continue
                 bump("ORDER", "loop exit (break/return) at %s" % loc_str(t.span))
     return cls, reasons
+
+
+def _keyed_store_by_item(body, fl, site, next_bb):
+    """the assignment goes through a slot obtained from entry(key)/get_mut(key) of an unordered map
+    whose key derives from the loop item"""
+    d = fl.single_def(site.lhs.local)
+    hops = 0
+    while d is not None and hops < 6:
+        hops += 1
+        if getattr(d, "k", None) == "call" and d.callee:
+            last = d.callee.short.split("::")[-1]
+            if last in ("or_insert", "or_default", "or_insert_with") and d.args and d.args[0].place is not None:
+                d = fl.single_def(d.args[0].place.local)
+                continue
+            if last in ("entry", "get_mut") and "HashMap" in d.callee.short and len(d.args) > 1:
+                sl = fl.slice_local(fl._op_reads(d.args[1]), data_only=True)
+                return ("CALL", next_bb) in sl
+            if last in ("unwrap", "deref_mut"):
+                d = fl.single_def(d.args[0].place.local) if d.args and d.args[0].place is not None else None
+                continue
+            return False
+        rv = getattr(d, "rv", None)
+        if rv is not None and rv.k in ("ref", "use", "copyderef"):
+            loc = rv.place.local if rv.place is not None else (rv.ops[0].place.local if rv.ops and rv.ops[0].place is not None else None)
+            d = fl.single_def(loc) if loc is not None else None
+            continue
+        return False
+    return False
 
 
 def _is_next_match(body, bb, next_bb):
@@ -346,7 +387,8 @@ def _follow(prog, b, fl, effects, site, local, seen):
             continue
         nm = t.callee.short if t.callee else "<indirect>"
         dty = t.dest.ty
-        if _contains_hash_iter(dty) and nm != "std::iter::Iterator::next":
+        last = nm.split("::")[-1]
+        if nm != "std::iter::Iterator::next" and (_contains_hash_iter(dty) or (last in ADAPTORS and (t.args[0].place is not None and t.args[0].place.local in aliases))):
             # adaptor (map/filter/cloned/into_iter/by_ref/...): keep following
             _follow(prog, b, fl, effects, site, t.dest.local, seen)
             continue
@@ -365,7 +407,7 @@ def _follow(prog, b, fl, effects, site, local, seen):
             site.consumers.append((t, "SAFE", nm))
         elif nm in ORDER_CONSUMERS:
             site.consumers.append((t, "ORDER", nm))
-        elif nm in FOLD_CONSUMERS:
+        elif nm in FOLD_CONSUMERS and not (nm.endswith("::fold") and _closure_arg(fl, t) and dty not in INT_TYS and dty not in ("f64", "f32")):
             if dty in INT_TYS:
                 site.consumers.append((t, "SAFE", nm + " -> " + dty))
             elif dty in ("f64", "f32"):
@@ -378,12 +420,131 @@ def _follow(prog, b, fl, effects, site, local, seen):
             elif nm.endswith("extend") and t.args and t.args[0].place is not None and is_unordered_collection(t.args[0].place.ty.lstrip("&mut ").strip()):
                 site.consumers.append((t, "SAFE", "extend of unordered container"))
             else:
-                site.consumers.append((t, "ORDER", "collect into ordered " + dty.split("<")[0]))
-                # the ordered collection now carries hash order: if it is sorted right away it is fine
+                srt = sorted_after(b, fl, t, site)
+                if srt:
+                    site.consumers.append((t, "SAFE", "collect into Vec, then " + srt))
+                else:
+                    site.consumers.append((t, "ORDER", "collect into ordered " + dty.split("<")[0]))
+        elif nm in ("std::iter::Iterator::for_each", "std::iter::Iterator::fold") and _closure_arg(fl, t):
+            cb = prog.bodies[_closure_arg(fl, t)]
+            cls, reasons = classify_closure_body(prog, cb, effects)
+            site.consumers.append((t, cls, "%s with closure: %s" % (nm.split("::")[-1], "; ".join(reasons) if reasons else "only inserts into unordered containers / accumulates integers")))
         elif nm == "std::iter::Iterator::for_each":
-            site.consumers.append((t, "ORDER", "for_each with a closure (not analysed): treated as order-sensitive"))
+            site.consumers.append((t, "ORDER", "for_each with a non-closure callee: treated as order-sensitive"))
         elif nm in ("std::iter::Iterator::size_hint", "std::clone::Clone::clone", "std::mem::drop"):
             continue
         else:
             tp = t.callee.target_path(prog) if t.callee else None
             site.consumers.append((t, "ORDER", "iterator passed to %s (not analysed): treated as order-sensitive" % nm))
+
+
+def _closure_arg(fl, t):
+    for a in t.args:
+        if a.place is not None and a.place.local in fl.closure_locals:
+            return fl.closure_locals[a.place.local]
+        if a.is_const() and a.c and "closure" in a.c:
+            return a.c["closure"]
+    return None
+
+
+def sorted_after(b, fl, collect_term, site):
+    """the Vec produced by `collect_term` is sorted (total order) before any other use"""
+    v = collect_term.dest.local
+    aliases = {v}
+    changed = True
+    while changed:
+        changed = False
+        for s in b.stmts():
+            if s.k != "assign" or s.lhs.proj:
+                continue
+            src = None
+            if s.rv.k == "use" and s.rv.ops[0].place is not None and not s.rv.ops[0].place.proj:
+                src = s.rv.ops[0].place.local
+            elif s.rv.k == "ref" and (not s.rv.place.proj or s.rv.place.proj == ["*"]):
+                src = s.rv.place.local
+            if src in aliases and s.lhs.local not in aliases:
+                aliases.add(s.lhs.local)
+                changed = True
+        for t in b.calls():
+            if t.callee and t.callee.short.split("::")[-1] in ("deref_mut", "deref", "as_mut_slice") and t.args and t.args[0].place is not None and t.args[0].place.local in aliases and t.dest.local not in aliases:
+                aliases.add(t.dest.local)
+                changed = True
+    sorts = []
+    uses = []
+    for t in b.calls():
+        if t is collect_term or not t.callee:
+            continue
+        if any(a.place is not None and a.place.local in aliases for a in t.args):
+            last = t.callee.short.split("::")[-1]
+            if last in ("sort", "sort_unstable", "sort_by", "sort_by_key", "sort_unstable_by", "sort_unstable_by_key", "sort_by_cached_key"):
+                sorts.append(t)
+            elif last in ("deref_mut", "deref", "as_mut_slice"):
+                continue
+            else:
+                uses.append(t)
+    if not sorts:
+        return None
+    st = sorts[0]
+    if not all(b.dominates(st.bb, u.bb) and u.bb != st.bb for u in uses):
+        return None
+    last = st.callee.short.split("::")[-1]
+    if last in ("sort", "sort_unstable"):
+        return "%s (total order on the elements)" % last
+    # sort by a comparator: total only if it compares unique keys -- the `.0` of (key, value) pairs
+    # taken from a HashMap, or the elements of a HashSet
+    if site.container[0] in ("HashMap", "HashSet") and last in ("sort_by", "sort_unstable_by"):
+        cp = _closure_arg(fl, st)
+        if cp:
+            cb = fl.prog.bodies[cp]
+            from flow import Flows
+
+            cf = Flows(fl.prog).of(cb)
+            cmps = [t for t in cb.calls() if t.callee and t.callee.short.split("::")[-1] in ("cmp", "partial_cmp")]
+            if len(cmps) == 1:
+                from flow import fmt_desc
+
+                ds = [fmt_desc(cf.describe(a, depth=6)) for a in cmps[0].args]
+                if site.container[0] == "HashSet" or all(d.endswith(".0") for d in ds):
+                    return "%s comparing the %s's own keys (unique, hence a total order)" % (last, site.container[0])
+    return None
+
+
+def classify_closure_body(prog, cb, effects):
+    """effects of a closure called once per item (for_each / fold)"""
+    reasons = []
+    cls = "SAFE"
+    order = {"SAFE": 0, "FLOAT": 1, "ORDER": 2}
+
+    def bump(c, why):
+        nonlocal cls
+        reasons.append("%s: %s" % (c, why))
+        if order[c] > order[cls]:
+            cls = c
+
+    for (bb, site, obj, kind) in effects.events(cb.path):
+        if obj[0] == "L" and obj[1] > cb.arg_count:
+            ty = cb.local_ty(obj[1])
+            # a closure-local temporary
+            if kind == "assign" and hasattr(site, "lhs") and site.lhs.ty in ("f64", "f32") and site.lhs.has_deref():
+                bump("FLOAT", "float accumulation through a reference at %s" % loc_str(site.span))
+            continue
+        if kind in ("HashMap::insert", "HashSet::insert", "HashMap::entry", "Entry::or_default", "Entry::or_insert", "Entry::or_insert_with", "HashSet::extend", "HashMap::extend", "BTreeMap::insert", "BTreeSet::insert", "HashMap::remove", "HashSet::remove", "iter::Extend::extend"):
+            continue
+        if kind in ("Vec::push", "VecDeque::push_back", "String::push_str", "String::push", "Vec::extend", "Vec::insert", "Vec::append", "BinaryHeap::push"):
+            bump("ORDER", "%s at %s" % (kind, loc_str(site.span)))
+            continue
+        if kind == "assign":
+            vt = site.lhs.ty if hasattr(site, "lhs") and site.lhs is not None else None
+            if vt in ("f64", "f32"):
+                bump("FLOAT", "float accumulation/assignment at %s" % loc_str(site.span))
+            elif vt in INT_TYS:
+                if site.rv.k in ("binop",) or (site.rv.k == "use" and site.rv.ops and site.rv.ops[0].place is not None and site.rv.ops[0].place.fields()[-1:] == ["0"]):
+                    continue
+                bump("ORDER", "last-wins assignment at %s" % loc_str(site.span))
+            else:
+                bump("ORDER", "assignment of %s at %s" % (vt, loc_str(site.span)))
+            continue
+        if kind.startswith("Iterator::") or kind in ("Deref::deref", "DerefMut::deref_mut", "Index::index", "IndexMut::index_mut", "Option::unwrap", "Clone::clone", "Graph::add_node"):
+            continue
+        bump("ORDER", "unclassified effect %s at %s" % (kind, loc_str(site.span)))
+    return cls, reasons
